@@ -31,6 +31,10 @@ type caseRec struct {
 		Fields []string `json:"fields"`
 	} `json:"fields"`
 	Excluded []string `json:"excluded"`
+	Imports  []struct {
+		From string `json:"from"`
+		To   string `json:"to"`
+	} `json:"imports"`
 }
 
 type input struct {
@@ -374,6 +378,23 @@ func run(in []byte) (*reg.Result, error) {
 					if _, err := protodesc.NewFiles(fds); err != nil {
 						res.Violate("does-not-link/"+sig, caseInfo, "the filtered image does not link: %v", err)
 						continue
+					}
+					// self-contained: every import the specification says a surviving file needs is still declared
+					for _, imp := range c.Imports {
+						f := out.GetFile(imp.From)
+						if f == nil {
+							res.Violate("import-missing/"+sig, caseInfo, "file %s is not in the filtered image although elements of it survive", imp.From)
+							continue
+						}
+						found := false
+						for _, d := range f.FileDescriptorProto().Dependency {
+							if d == imp.To {
+								found = true
+							}
+						}
+						if !found {
+							res.Violate("import-missing/"+sig, caseInfo, "file %s no longer imports %s although a surviving element of it needs a declaration of that file (dependencies: %v)", imp.From, imp.To, f.FileDescriptorProto().Dependency)
+						}
 					}
 					got := collect(out)
 					var gotNames []string
